@@ -90,6 +90,16 @@ impl Prop for Refinement {
             1..=5 => r.usize_in(1, 8) as u64,
             _ => r.usize_in(9, 50) as u64,
         };
+        let mut k = *r.pick(&[1usize, 1, 1, 2, 3]);
+        // a few very long runs on tiny games (whatever only shows after tens of thousands of
+        // iterations: rescaled accumulators, wrapped counters, weights that underflow)
+        let (game, shape, t) = if r.coin(0.0012) {
+            k = 1;
+            let (g, s) = gen::game(r, &["tiny"], 1);
+            (g, s, 20_000 + r.below(130_000))
+        } else {
+            (game, shape, t)
+        };
         LibCase {
             game,
             shape: shape.to_string(),
@@ -97,7 +107,7 @@ impl Prop for Refinement {
             params: random_params(r),
             t,
             thresh: 0.0,
-            k: *r.pick(&[1usize, 1, 1, 2, 3]),
+            k,
             cores: Cores::Real,
             sampling_seed: r.next(),
             fail_build: false,
@@ -149,6 +159,7 @@ impl Prop for Refinement {
             Err(e) => return finish(m, h, viol("library-tree-differs-from-model", "", e), traces),
         };
         let r = reference(&tree, &RefCfg { method: case.method, params: case.params.documented(), t: case.t, thresh: 0.0, seed: case.sampling_seed, tie: cond::tie_policy() });
+        m.add("probe_budget_of_20000_or_more_iterations", (case.t >= 20_000) as u64);
         let is_preset = !matches!(case.params, ParamSpec::Custom(_));
         m.add("runs_with_preset_or_default_params", is_preset as u64);
         if let Some(why) = r.ill {
